@@ -4,9 +4,10 @@ arms, and `Satisfaction::thresh` in `src/miniscript/satisfy/mod.rs`), stated ove
 model `satDissat` (which does not model them as panics).
 
 * `assertsOk c ms` — no assert fires anywhere in the tree;
-* `asserts_fail_nonZero`, `asserts_fail_mall` — two well-typed scripts on which an assert fires;
-* `asserts_hold_partial` — in non-malleable mode, without the `j:` wrapper (and with the
-  `Threshold` invariant `k ≤ n`), no assert fires.
+* `asserts_fail_mall` — a well-typed script on which an assert fires in malleable mode;
+* `asserts_hold_nonmall` — in non-malleable mode (with the `Threshold` invariant `k ≤ n`) no
+  assert fires; `asserts_exA_silent` — the script that made `or_d`'s assert fire before the
+  `j:` dissatisfaction was fixed (`Terminal::NonZero` now dissatisfies with one empty push).
 
 Auxiliary definitions and lemmas live in the sub-namespace `MsVerif.SatSpec.Asserts`.
 -/
@@ -96,8 +97,9 @@ def cfgA : SatCfg := ⟨keToy, .segwitv0, false, true, assetsA⟩
 /-- malleable mode, segwit v0 -/
 def cfgB : SatCfg := ⟨keToy, .segwitv0, true, true, assetsB⟩
 
-/-- `or_d(or_i(j:and_v(v:pk(K0),pk(K1)),and_v(v:pk(K2),0)),pk(K3))`: `j:` reports its
-dissatisfaction as IMPOSSIBLE, so `minimum` picks `[sig(K2) 0]` as dissatisfaction of the `or_i` -/
+/-- `or_d(or_i(j:and_v(v:pk(K0),pk(K1)),and_v(v:pk(K2),0)),pk(K3))`: while `j:` reported its
+dissatisfaction as IMPOSSIBLE, `minimum` picked `[sig(K2) 0]` as dissatisfaction of the `or_i`
+and the `or_d` assert fired; with `push_0` it no longer does -/
 def exA : Ms :=
   .orD (.orI (.nonZero (.andV (.verify (pk 0)) (pk 1))) (.andV (.verify (pk 2)) .fls)) (pk 3)
 
@@ -111,8 +113,6 @@ theorem exA_nonMall_signed :
     (typeOf exA).map (fun t => (t.mall.nonMall, t.mall.signed)) = some (true, true) := by decide
 theorem exB_typed : (typeOf exB).isSome = true := by decide
 
-/-- the `Terminal::OrD` assert fires on the sane, non-malleable, signed `exA` (non-malleable mode) -/
-theorem asserts_fail_nonZero : assertsOk cfgA exA = false := by decide
 
 /-- the `Terminal::OrD` assert fires on the well-typed `exB` in malleable mode -/
 theorem asserts_fail_mall : assertsOk cfgB exB = false := by decide
@@ -450,21 +450,6 @@ end Asserts
 open Asserts
 
 mutual
-/-- no `j:` (`Terminal::NonZero`) wrapper anywhere -/
-def noNonZero : Ms → Bool
-  | .nonZero _ => false
-  | .alt x | .swap x | .check x | .dupIf x | .verify x | .zeroNotEqual x => noNonZero x
-  | .andV l r | .andB l r | .orB l r | .orC l r | .orD l r | .orI l r => noNonZero l && noNonZero r
-  | .andOr a b z => noNonZero a && noNonZero b && noNonZero z
-  | .thresh _ xs => noNonZeros xs
-  | .tru | .fls | .pkK _ | .pkH _ | .rawPkH _ | .after _ | .older _ | .hash _ _
-  | .multi _ _ | .sortedMulti _ _ | .multiA _ _ | .sortedMultiA _ _ => true
-def noNonZeros : MsList → Bool
-  | .nil => true
-  | .cons x xs => noNonZero x && noNonZeros xs
-end
-
-mutual
 /-- the `Threshold<T, MAX>` invariant `k ≤ n` at every `thresh` (the Rust type guarantees
 `1 ≤ k ≤ n`; `typeOf` does not look at `k`) -/
 def threshKOk : Ms → Bool
@@ -484,153 +469,152 @@ namespace Asserts
 theorem minFn_nonMall (c : SatCfg) (hm : c.mall = false) : c.minFn = Sat.minimum := by
   simp [SatCfg.minFn, hm]
 
-/-! ### the invariant holds for well-typed scripts without `j:` in non-malleable mode -/
+/-! ### the invariant holds for well-typed scripts in non-malleable mode -/
 
 mutual
 theorem inv_of_typed (c : SatCfg) (hm : c.mall = false) :
-    (ms : Ms) → (τ : Ty) → typeOf ms = some τ → noNonZero ms = true → threshKOk ms = true →
+    (ms : Ms) → (τ : Ty) → typeOf ms = some τ → threshKOk ms = true →
       Inv c ms τ
-  | .tru, τ, h, _, _ => by
+  | .tru, τ, h, _ => by
     simp only [typeOf, Option.some.injEq] at h; subst h
     exact Inv.ofNoDissat (by simp only [assertsOk]) rfl
-  | .fls, τ, h, _, _ =>
+  | .fls, τ, h, _ =>
     ⟨by simp only [assertsOk], fun _ => by simp [satDissat, Clean, Sat.TRIVIAL]⟩
-  | .pkK k, τ, h, _, _ =>
+  | .pkK k, τ, h, _ =>
     ⟨by simp only [assertsOk], fun _ => by simp [satDissat, Clean, Sat.push0]⟩
-  | .pkH k, τ, h, _, _ =>
+  | .pkH k, τ, h, _ =>
     ⟨by simp only [assertsOk], fun _ => by simp [satDissat, Clean, Wit.combine]⟩
-  | .rawPkH k, τ, h, _, _ => by
+  | .rawPkH k, τ, h, _ => by
     refine ⟨by simp only [assertsOk], fun _ => ?_⟩
     simp only [satDissat]
     cases c.assets.rawPkhPk k <;> simp [Clean, Wit.combine]
-  | .after n, τ, h, _, _ => by
+  | .after n, τ, h, _ => by
     simp only [typeOf, Option.some.injEq] at h; subst h
     exact Inv.ofNoDissat (by simp only [assertsOk]) rfl
-  | .older n, τ, h, _, _ => by
+  | .older n, τ, h, _ => by
     simp only [typeOf, Option.some.injEq] at h; subst h
     exact Inv.ofNoDissat (by simp only [assertsOk]) rfl
-  | .hash kind v, τ, h, _, _ =>
+  | .hash kind v, τ, h, _ =>
     ⟨by simp only [assertsOk], fun _ => by simp [satDissat, Clean]⟩
-  | .multi k ks, τ, h, _, _ =>
+  | .multi k ks, τ, h, _ =>
     ⟨by simp only [assertsOk], fun _ => by simp only [satDissat]; exact multiSD_dissat ..⟩
-  | .sortedMulti k ks, τ, h, _, _ =>
+  | .sortedMulti k ks, τ, h, _ =>
     ⟨by simp only [assertsOk], fun _ => by simp only [satDissat]; exact multiSD_dissat ..⟩
-  | .multiA k ks, τ, h, _, _ =>
+  | .multiA k ks, τ, h, _ =>
     ⟨by simp only [assertsOk], fun _ => by simp only [satDissat]; exact multiASD_dissat ..⟩
-  | .sortedMultiA k ks, τ, h, _, _ =>
+  | .sortedMultiA k ks, τ, h, _ =>
     ⟨by simp only [assertsOk], fun _ => by simp only [satDissat]; exact multiASD_dissat ..⟩
-  | .alt x, τ, h, hj, hk => by
+  | .alt x, τ, h, hk => by
     simp only [typeOf, Option.bind_eq_some_iff] at h
     obtain ⟨t, ht, hc⟩ := h
-    simp only [noNonZero] at hj; simp only [threshKOk] at hk
-    exact (inv_of_typed c hm x t ht hj hk).wrap (by simp only [assertsOk])
+    simp only [threshKOk] at hk
+    exact (inv_of_typed c hm x t ht hk).wrap (by simp only [assertsOk])
       (by simp only [satDissat]) (corr_castAlt_dissat (lift1_inv hc))
-  | .swap x, τ, h, hj, hk => by
+  | .swap x, τ, h, hk => by
     simp only [typeOf, Option.bind_eq_some_iff] at h
     obtain ⟨t, ht, hc⟩ := h
-    simp only [noNonZero] at hj; simp only [threshKOk] at hk
-    exact (inv_of_typed c hm x t ht hj hk).wrap (by simp only [assertsOk])
+    simp only [threshKOk] at hk
+    exact (inv_of_typed c hm x t ht hk).wrap (by simp only [assertsOk])
       (by simp only [satDissat]) (corr_castSwap_dissat (lift1_inv hc))
-  | .check x, τ, h, hj, hk => by
+  | .check x, τ, h, hk => by
     simp only [typeOf, Option.bind_eq_some_iff] at h
     obtain ⟨t, ht, hc⟩ := h
-    simp only [noNonZero] at hj; simp only [threshKOk] at hk
-    exact (inv_of_typed c hm x t ht hj hk).wrap (by simp only [assertsOk])
+    simp only [threshKOk] at hk
+    exact (inv_of_typed c hm x t ht hk).wrap (by simp only [assertsOk])
       (by simp only [satDissat]) (corr_castCheck_dissat (lift1_inv hc))
-  | .zeroNotEqual x, τ, h, hj, hk => by
+  | .zeroNotEqual x, τ, h, hk => by
     simp only [typeOf, Option.bind_eq_some_iff] at h
     obtain ⟨t, ht, hc⟩ := h
-    simp only [noNonZero] at hj; simp only [threshKOk] at hk
-    exact (inv_of_typed c hm x t ht hj hk).wrap (by simp only [assertsOk])
+    simp only [threshKOk] at hk
+    exact (inv_of_typed c hm x t ht hk).wrap (by simp only [assertsOk])
       (by simp only [satDissat]) (corr_castZeroNotEqual_dissat (lift1_inv hc))
-  | .dupIf x, τ, h, hj, hk => by
+  | .dupIf x, τ, h, hk => by
     simp only [typeOf, Option.bind_eq_some_iff] at h
     obtain ⟨t, ht, hc⟩ := h
-    simp only [noNonZero] at hj; simp only [threshKOk] at hk
-    have I := inv_of_typed c hm x t ht hj hk
+    simp only [threshKOk] at hk
+    have I := inv_of_typed c hm x t ht hk
     exact ⟨by simp only [assertsOk]; exact I.1, fun _ => by simp [satDissat, Clean, Sat.push0]⟩
-  | .verify x, τ, h, hj, hk => by
+  | .verify x, τ, h, hk => by
     simp only [typeOf, Option.bind_eq_some_iff] at h
     obtain ⟨t, ht, hc⟩ := h
-    simp only [noNonZero] at hj; simp only [threshKOk] at hk
-    have I := inv_of_typed c hm x t ht hj hk
+    simp only [threshKOk] at hk
+    have I := inv_of_typed c hm x t ht hk
     exact Inv.ofNoDissat (by simp only [assertsOk]; exact I.1)
       (corr_castVerify_dissat (lift1_inv hc))
-  | .nonZero x, τ, h, hj, hk => by simp only [noNonZero] at hj; cases hj
-  | .andB l r, τ, h, hj, hk => by
+  | .nonZero x, τ, h, hk => by
+    simp only [typeOf, Option.bind_eq_some_iff] at h
+    obtain ⟨t, ht, hc⟩ := h
+    simp only [threshKOk] at hk
+    have I := inv_of_typed c hm x t ht hk
+    exact ⟨by simp only [assertsOk]; exact I.1, fun _ => by simp [satDissat, Clean, Sat.push0]⟩
+  | .andB l r, τ, h, hk => by
     simp only [typeOf] at h
     cases hl : typeOf l <;> cases hr : typeOf r <;> simp only [hl, hr] at h <;>
       try (cases h; done)
     rename_i tl tr
-    simp only [noNonZero, Bool.and_eq_true] at hj
     simp only [threshKOk, Bool.and_eq_true] at hk
-    have Il := inv_of_typed c hm l tl hl hj.1 hk.1
-    have Ir := inv_of_typed c hm r tr hr hj.2 hk.2
+    have Il := inv_of_typed c hm l tl hl hk.1
+    have Ir := inv_of_typed c hm r tr hr hk.2
     have hd := corr_andB_dissat (lift2_inv h)
     refine ⟨by simp only [assertsOk, Il.1, Ir.1, Bool.and_self], fun hτ => ?_⟩
     rw [hd, Bool.and_eq_true] at hτ
     simp only [satDissat]
     exact (Il.2 hτ.1).concat (Ir.2 hτ.2)
-  | .andV l r, τ, h, hj, hk => by
+  | .andV l r, τ, h, hk => by
     simp only [typeOf] at h
     cases hl : typeOf l <;> cases hr : typeOf r <;> simp only [hl, hr] at h <;>
       try (cases h; done)
     rename_i tl tr
-    simp only [noNonZero, Bool.and_eq_true] at hj
     simp only [threshKOk, Bool.and_eq_true] at hk
-    have Il := inv_of_typed c hm l tl hl hj.1 hk.1
-    have Ir := inv_of_typed c hm r tr hr hj.2 hk.2
+    have Il := inv_of_typed c hm l tl hl hk.1
+    have Ir := inv_of_typed c hm r tr hr hk.2
     exact Inv.ofNoDissat (by simp only [assertsOk, Il.1, Ir.1, Bool.and_self])
       (corr_andV_dissat (lift2_inv h))
-  | .orB l r, τ, h, hj, hk => by
+  | .orB l r, τ, h, hk => by
     simp only [typeOf] at h
     cases hl : typeOf l <;> cases hr : typeOf r <;> simp only [hl, hr] at h <;>
       try (cases h; done)
     rename_i tl tr
-    simp only [noNonZero, Bool.and_eq_true] at hj
     simp only [threshKOk, Bool.and_eq_true] at hk
-    have Il := inv_of_typed c hm l tl hl hj.1 hk.1
-    have Ir := inv_of_typed c hm r tr hr hj.2 hk.2
+    have Il := inv_of_typed c hm l tl hl hk.1
+    have Ir := inv_of_typed c hm r tr hr hk.2
     obtain ⟨hdl, hdr⟩ := corr_orB_dissat (lift2_inv h)
     have Cl := Il.2 hdl
     have Cr := Ir.2 hdr
     refine ⟨by simp [assertsOk, Il.1, Ir.1, Cl.1, Cr.1], fun _ => ?_⟩
     simp only [satDissat]
     exact Cl.concat Cr
-  | .orC l r, τ, h, hj, hk => by
+  | .orC l r, τ, h, hk => by
     simp only [typeOf] at h
     cases hl : typeOf l <;> cases hr : typeOf r <;> simp only [hl, hr] at h <;>
       try (cases h; done)
     rename_i tl tr
-    simp only [noNonZero, Bool.and_eq_true] at hj
     simp only [threshKOk, Bool.and_eq_true] at hk
-    have Il := inv_of_typed c hm l tl hl hj.1 hk.1
-    have Ir := inv_of_typed c hm r tr hr hj.2 hk.2
+    have Il := inv_of_typed c hm l tl hl hk.1
+    have Ir := inv_of_typed c hm r tr hr hk.2
     obtain ⟨hdl, hτ⟩ := corr_orC_dissat (lift2_inv h)
     exact Inv.ofNoDissat (by simp [assertsOk, Il.1, Ir.1, (Il.2 hdl).1]) hτ
-  | .orD l r, τ, h, hj, hk => by
+  | .orD l r, τ, h, hk => by
     simp only [typeOf] at h
     cases hl : typeOf l <;> cases hr : typeOf r <;> simp only [hl, hr] at h <;>
       try (cases h; done)
     rename_i tl tr
-    simp only [noNonZero, Bool.and_eq_true] at hj
     simp only [threshKOk, Bool.and_eq_true] at hk
-    have Il := inv_of_typed c hm l tl hl hj.1 hk.1
-    have Ir := inv_of_typed c hm r tr hr hj.2 hk.2
+    have Il := inv_of_typed c hm l tl hl hk.1
+    have Ir := inv_of_typed c hm r tr hr hk.2
     obtain ⟨hdl, hτ⟩ := corr_orD_dissat (lift2_inv h)
     refine ⟨by simp [assertsOk, Il.1, Ir.1, (Il.2 hdl).1], fun hτ' => ?_⟩
     rw [hτ] at hτ'
     simp only [satDissat]
     exact (Il.2 hdl).concat (Ir.2 hτ')
-  | .orI l r, τ, h, hj, hk => by
+  | .orI l r, τ, h, hk => by
     simp only [typeOf] at h
     cases hl : typeOf l <;> cases hr : typeOf r <;> simp only [hl, hr] at h <;>
       try (cases h; done)
     rename_i tl tr
-    simp only [noNonZero, Bool.and_eq_true] at hj
     simp only [threshKOk, Bool.and_eq_true] at hk
-    have Il := inv_of_typed c hm l tl hl hj.1 hk.1
-    have Ir := inv_of_typed c hm r tr hr hj.2 hk.2
+    have Il := inv_of_typed c hm l tl hl hk.1
+    have Ir := inv_of_typed c hm r tr hr hk.2
     have hd := corr_orI_dissat (lift2_inv h)
     refine ⟨by simp only [assertsOk, Il.1, Ir.1, Bool.and_self], fun hτ => ?_⟩
     rw [hd, Bool.or_eq_true] at hτ
@@ -639,28 +623,26 @@ theorem inv_of_typed (c : SatCfg) (hm : c.mall = false) :
     rcases hτ with h1 | h2
     · exact Clean.minLeft _ ((Il.2 h1).push _)
     · exact Clean.minRight _ ((Ir.2 h2).push _)
-  | .andOr a b z, τ, h, hj, hk => by
+  | .andOr a b z, τ, h, hk => by
     simp only [typeOf] at h
     cases ha : typeOf a <;> cases hb : typeOf b <;> cases hz : typeOf z <;>
       simp only [ha, hb, hz] at h <;> try (cases h; done)
     rename_i ta tb tz
-    simp only [noNonZero, Bool.and_eq_true] at hj
     simp only [threshKOk, Bool.and_eq_true] at hk
-    have Ia := inv_of_typed c hm a ta ha hj.1.1 hk.1.1
-    have Ib := inv_of_typed c hm b tb hb hj.1.2 hk.1.2
-    have Iz := inv_of_typed c hm z tz hz hj.2 hk.2
+    have Ia := inv_of_typed c hm a ta ha hk.1.1
+    have Ib := inv_of_typed c hm b tb hb hk.1.2
+    have Iz := inv_of_typed c hm z tz hz hk.2
     obtain ⟨hda, hτ⟩ := corr_andOr_dissat (andOr_inv h)
     refine ⟨by simp only [assertsOk, Ia.1, Ib.1, Iz.1, Bool.and_self], fun hτ' => ?_⟩
     rw [hτ] at hτ'
     simp only [satDissat]
     exact (Ia.2 hda).concat (Iz.2 hτ')
-  | .thresh k xs, τ, h, hj, hk => by
+  | .thresh k xs, τ, h, hk => by
     simp only [typeOf, Option.bind_eq_some_iff] at h
     obtain ⟨ts, hts, hth⟩ := h
-    simp only [noNonZero] at hj
     simp only [threshKOk, Bool.and_eq_true, decide_eq_true_eq] at hk
     have hds := corr_threshold_dissat (threshold_inv hth)
-    have I := invs_of_typed c hm xs ts hts hj hk.2
+    have I := invs_of_typed c hm xs ts hts hk.2
     have hC : ∀ sd ∈ satDissats c xs, Clean sd.dissat :=
       I.2 (fun t ht => hds _ (List.mem_map_of_mem ht))
     refine ⟨?_, fun _ => ?_⟩
@@ -680,22 +662,21 @@ theorem inv_of_typed (c : SatCfg) (hm : c.mall = false) :
       obtain ⟨sd, hsd, rfl⟩ := List.mem_map.1 hs
       exact hC sd hsd
 theorem invs_of_typed (c : SatCfg) (hm : c.mall = false) :
-    (xs : MsList) → (ts : List Ty) → typesOf xs = some ts → noNonZeros xs = true →
+    (xs : MsList) → (ts : List Ty) → typesOf xs = some ts →
       threshKOks xs = true →
       assertsOks c xs = true ∧
         ((∀ t ∈ ts, t.corr.dissat = true) → ∀ sd ∈ satDissats c xs, Clean sd.dissat)
-  | .nil, ts, h, _, _ =>
+  | .nil, ts, h, _ =>
     ⟨by simp only [assertsOks], fun _ sd hsd => by simp [satDissats] at hsd⟩
-  | .cons x xs, ts, h, hj, hk => by
+  | .cons x xs, ts, h, hk => by
     simp only [typesOf] at h
     cases hx : typeOf x <;> cases hxs : typesOf xs <;> simp only [hx, hxs] at h <;>
       try (cases h; done)
     rename_i t ts'
     simp only [Option.some.injEq] at h; subst h
-    simp only [noNonZeros, Bool.and_eq_true] at hj
     simp only [threshKOks, Bool.and_eq_true] at hk
-    have Ix := inv_of_typed c hm x t hx hj.1 hk.1
-    have Ixs := invs_of_typed c hm xs ts' hxs hj.2 hk.2
+    have Ix := inv_of_typed c hm x t hx hk.1
+    have Ixs := invs_of_typed c hm xs ts' hxs hk.2
     refine ⟨by simp only [assertsOks, Ix.1, Ixs.1, Bool.and_self], fun hall sd hsd => ?_⟩
     simp only [satDissats, List.mem_cons] at hsd
     rcases hsd with rfl | hsd
@@ -708,56 +689,57 @@ open Asserts
 
 /-! ### main statements -/
 
-/-- **Positive part.**  Non-malleable mode, well-typed script without the `j:` wrapper (and with
-the `Threshold` invariant `k ≤ n`, which the Rust type `Threshold<T, MAX>` guarantees but `typeOf`
-does not check): none of the satisfier's `assert!`s fires, whatever the assets are. -/
-theorem asserts_hold_partial (c : SatCfg) (hm : c.mall = false) (ms : Ms) (τ : Ty)
-    (hty : typeOf ms = some τ) (hj : noNonZero ms = true) (hk : threshKOk ms = true) :
+/-- **Positive part.**  Non-malleable mode, any well-typed script (with the `Threshold` invariant
+`k ≤ n`, which the Rust type `Threshold<T, MAX>` guarantees but `typeOf` does not check): none of
+the satisfier's `assert!`s fires, whatever the assets are. -/
+theorem asserts_hold_nonmall (c : SatCfg) (hm : c.mall = false) (ms : Ms) (τ : Ty)
+    (hty : typeOf ms = some τ) (hk : threshKOk ms = true) :
     assertsOk c ms = true :=
-  (inv_of_typed c hm ms τ hty hj hk).1
+  (inv_of_typed c hm ms τ hty hk).1
 
 /-- by-product of the invariant: under the same hypotheses a `d`-typed script has a computed
 dissatisfaction that is sig-free, lock-free and not IMPOSSIBLE -/
-theorem dissat_clean_partial (c : SatCfg) (hm : c.mall = false) (ms : Ms) (τ : Ty)
-    (hty : typeOf ms = some τ) (hj : noNonZero ms = true) (hk : threshKOk ms = true)
+theorem dissat_clean_nonmall (c : SatCfg) (hm : c.mall = false) (ms : Ms) (τ : Ty)
+    (hty : typeOf ms = some τ) (hk : threshKOk ms = true)
     (hd : τ.corr.dissat = true) :
     (satDissat c ms).dissat.hasSig = false ∧ (satDissat c ms).dissat.stack ≠ .impossible ∧
       (satDissat c ms).dissat.abs = none ∧ (satDissat c ms).dissat.rel = none :=
-  (inv_of_typed c hm ms τ hty hj hk).2 hd
+  (inv_of_typed c hm ms τ hty hk).2 hd
+
+/-- the former counterexample (fixed with `j:`'s dissatisfaction = one empty push) is silent -/
+theorem asserts_exA_silent : assertsOk cfgA exA = true := by decide
 
 /-- the same without the `k ≤ n` side condition -/
-def asserts_hold_partial_full : Prop :=
-  ∀ (c : SatCfg) (ms : Ms) (τ : Ty), c.mall = false → typeOf ms = some τ → noNonZero ms = true →
-    assertsOk c ms = true
+def asserts_hold_nonmall_full : Prop :=
+  ∀ (c : SatCfg) (ms : Ms) (τ : Ty), c.mall = false → typeOf ms = some τ → assertsOk c ms = true
 
 /-- `thresh(2, pk(K0))` (`k > n`, not constructible in Rust): `typeOf` ignores `k`, and the model
 of `Satisfaction::thresh` reads `sat_indices[k]` out of range -/
 def exK : Ms := .thresh 2 (.cons (pk 0) .nil)
 
 theorem exK_facts :
-    (typeOf exK).isSome = true ∧ noNonZero exK = true ∧ threshKOk exK = false
-      ∧ assertsOk cfgA exK = false := by decide
+    (typeOf exK).isSome = true ∧ threshKOk exK = false ∧ assertsOk cfgA exK = false := by decide
 
-/-- the side condition `threshKOk` of `asserts_hold_partial` cannot be dropped (model artefact:
-`k > n` is unrepresentable in the library) -/
-theorem asserts_hold_partial_full_false : ¬ asserts_hold_partial_full := by
+/-- the side condition `threshKOk` cannot be dropped (model artefact: `k > n` is
+unrepresentable in the library) -/
+theorem asserts_hold_nonmall_full_false : ¬ asserts_hold_nonmall_full := by
   intro h
   have hty : typeOf exK = some ((typeOf exK).get (by decide)) := by simp
-  have := h cfgA exK _ rfl hty (by decide)
-  rw [exK_facts.2.2.2] at this
+  have := h cfgA exK _ rfl hty
+  rw [exK_facts.2.2] at this
   cases this
 
-/-- the unrestricted claim: every well-typed script keeps the asserts silent -/
+/-- the unrestricted claim: every well-typed script keeps the asserts silent in both modes -/
 def asserts_hold_full : Prop :=
   ∀ (c : SatCfg) (ms : Ms) (τ : Ty), typeOf ms = some τ → assertsOk c ms = true
 
-/-- **Negative part.**  The unrestricted claim is false: `exA` is well-typed (even sane:
-non-malleable and signed) and the `Terminal::OrD` assert fires on it in non-malleable mode. -/
+/-- **Negative part.**  The unrestricted claim is false: `exB` is well-typed (`k ≤ n` holds
+trivially, no `thresh`) and the `Terminal::OrD` assert fires on it in MALLEABLE mode. -/
 theorem asserts_hold_full_false : ¬ asserts_hold_full := by
   intro h
-  have hty : typeOf exA = some ((typeOf exA).get (by decide)) := by simp
-  have := h cfgA exA _ hty
-  rw [asserts_fail_nonZero] at this
+  have hty : typeOf exB = some ((typeOf exB).get (by decide)) := by simp
+  have := h cfgB exB _ hty
+  rw [asserts_fail_mall] at this
   cases this
 
 end MsVerif.SatSpec
